@@ -734,3 +734,61 @@ end
 def run (env : Env) (p : Stmts) : List Rec := (runL env (St.init env) p).1
 
 end Scope
+
+/-
+Phase 3 of `Execer.parse`: xonsh/parsers/base.py `_SubprocChainRaiseWrapper` (hand-written model; tied to the code by the
+harness's tree-identity oracle: whatever is kept must be the tree `ast.parse` builds).
+-/
+namespace RaiseWrap
+
+mutual
+  inductive T where
+    | helper (raising : Bool) (args : Ts)      -- a `__xonsh__.subproc_*` call (`raising`: subproc_uncaptured / captured_hiddenobject)
+    | boolop (vs : Ts)                          -- BoolOp
+    | wrapped (t : T)                           -- `__xonsh__.subproc_check_boolop(t)`
+    | stmtVal (t : T)                           -- Expr / Assign / AugAssign / AnnAssign with value t
+    | other (cs : Ts)                           -- any other node
+  inductive Ts where
+    | nil
+    | cons (t : T) (ts : Ts)
+end
+
+mutual
+  /-- `_boolop_contains_subproc`: a subprocess helper call somewhere below -/
+  def hasHelper : T → Bool
+    | .helper _ _ => true
+    | .boolop vs => hasHelperL vs
+    | .wrapped t => hasHelper t
+    | .stmtVal t => hasHelper t
+    | .other cs => hasHelperL cs
+  def hasHelperL : Ts → Bool
+    | .nil => false
+    | .cons t ts => hasHelper t || hasHelperL ts
+end
+
+def isWrapped : T → Bool
+  | .wrapped _ => true
+  | _ => false
+
+def isRaisingHelper : T → Bool
+  | .helper r _ => r
+  | _ => false
+
+mutual
+  /-- `_SubprocChainRaiseWrapper.visit` (`inside` = `self._inside_boolop`) -/
+  def visit (inside : Bool) : T → T
+    | .helper r args => .helper r (visitL inside args)
+    | .boolop vs =>
+      if inside then .boolop (visitL true vs)
+      else if hasHelperL (visitL true vs) then .wrapped (.boolop (visitL true vs)) else .boolop (visitL true vs)
+    | .wrapped t => .wrapped (visit inside t)
+    | .stmtVal t =>
+      .stmtVal (if isWrapped (visit inside t) then visit inside t
+                else if isRaisingHelper (visit inside t) then .wrapped (visit inside t) else visit inside t)
+    | .other cs => .other (visitL inside cs)
+  def visitL (inside : Bool) : Ts → Ts
+    | .nil => .nil
+    | .cons t ts => .cons (visit inside t) (visitL inside ts)
+end
+
+end RaiseWrap
